@@ -35,6 +35,22 @@ type Ctx struct {
 func Load(repo, tier string, tests bool) (*Ctx, error) {
 	env := append(os.Environ(), "GOFLAGS=-mod=mod", "GOPROXY=off", "GOWORK=off")
 	cfg := &packages.Config{Mode: packages.LoadSyntax, Dir: repo, Tests: tests, Env: env}
+	// F3LINT_OVERLAY=<repo-relative file>=<replacement file>[,...]: analyse a variant of the tree
+	// without copying it (used only by the mutation sweep tools, never by registered checks).
+	if ov := os.Getenv("F3LINT_OVERLAY"); ov != "" {
+		cfg.Overlay = map[string][]byte{}
+		for _, kv := range strings.Split(ov, ",") {
+			parts := strings.SplitN(kv, "=", 2)
+			if len(parts) != 2 {
+				return nil, fmt.Errorf("bad F3LINT_OVERLAY entry %q", kv)
+			}
+			b, err := os.ReadFile(parts[1])
+			if err != nil {
+				return nil, fmt.Errorf("overlay: %w", err)
+			}
+			cfg.Overlay[repo+"/"+parts[0]] = b
+		}
+	}
 	pkgs, err := packages.Load(cfg, "./...")
 	if err != nil {
 		return nil, fmt.Errorf("load: %w", err)
